@@ -3,6 +3,7 @@ package gw
 import (
 	"fmt"
 	"math"
+	"regexp"
 	"runtime/debug"
 	"strings"
 	"time"
@@ -228,7 +229,7 @@ func RunC16(r *sim.Run) {
 		}
 		if admitErr != nil {
 			rejected++
-			r.Logf("obj %d (%s): rejected: %s", i, desc, firstLine(admitErr.Error()))
+			r.Logf("obj %d (%s): rejected: %s", i, desc, pemRE.ReplaceAllString(firstLine(admitErr.Error()), "<pem>"))
 			continue
 		}
 		admitted++
@@ -290,3 +291,6 @@ func RunC16(r *sim.Run) {
 	r.Nontrivial = admitted > 0 && rejected > 0
 	r.Sample = map[string]interface{}{"objects": nObj, "admitted": admitted, "rejected": rejected, "admitted_examples": sample}
 }
+
+// key material is generated per process; it must not reach the trace
+var pemRE = regexp.MustCompile(`-----BEGIN [A-Z ]+-----(\\n|[A-Za-z0-9+/=])*`)
